@@ -58,7 +58,7 @@ def gen_cases(rng, count, tier='quick'):
                      ([1e-4, 1e-8, 1.0, 1e-8, 1e4, 1e-4] if (cls == 'ExpectileGAM' or (dist, link) == ('gamma', 'identity')) else [1.0, 1e-4, 1.0, 1e-8, 1e4, 1.0])[(i // len(PAIRS)) % 6])[1]
             if dist in ('normal', 'gamma') else (rng.choice([1.0]), 1.0)[1],
             # what happened to the model object before the fit that is judged (used by the streams that look at histories)
-            history=rng.choice(['none', 'none', 'none', 'refit-lam', 'refit-lam', 'refit-data']),
+            history=rng.choice(['none', 'none', 'none', 'refit-lam', 'refit-lam', 'refit-data', 'refit-pen']),
             # used only by streams that opt in (build(..., opt_in=True)): features of huge magnitude; exposure of a PoissonGAM
             feature_units=(rng.choice(['plain', 'plain', 'plain', 'huge']), 'huge' if (i % 3 == 1) else 'plain')[1],
             exposure_mode=rng.choice(['none', 'pos', 'pos']) if cls == 'PoissonGAM' else 'none',
